@@ -294,6 +294,15 @@ def judge(ctx, obj, jm, case):
         # escape sequences that leaked into a no-colour rendering)
         txt = str(pp(obj, **nck))
         lines = [str(l) for l in pp(obj, no_color=True)]
+        # a result that nobody has looked at yet is asked for its length first (a writer that sends it in pieces of a
+        # fixed size): the length of the text it gives afterwards
+        fresh = pp(obj, no_color=True)
+        n_fresh = len(fresh)
+        pieces = "".join(str(fresh[k:k + 37]) for k in range(0, n_fresh, 37))
+        ctx.count("results_asked_for_their_length_first")
+        if n_fresh != len(txt) or pieces != txt:
+            ctx.violation("length-asked-first-differs-from-the-text", {"len": n_fresh, "text_len": len(txt),
+                                                                       "pieces_equal": pieces == txt}, case)
         # a result of an EARLIER call of this printer that nobody has rendered yet is rendered only now
         held = _PENDING.pop(jm, None)
         if held is not None and held[2] is pp:
